@@ -150,7 +150,7 @@ func (st *SlimTrie) GetID(key string) int32 {
 		}
 
 		if qr.hasInnerPrefix {
-			r := bitstr.StrCmpUpto(key[i>>3:], qr.innerPrefix)
+			r := strCmpUpto(key[i>>3:], qr.innerPrefix)
 			if r != 0 {
 				return -1
 			}
@@ -252,7 +252,7 @@ func (st *SlimTrie) searchID(key string) (lID, eqID, rID int32) {
 		}
 
 		if qr.hasInnerPrefix {
-			r := bitstr.StrCmpUpto(key[i>>3:], qr.innerPrefix)
+			r := strCmpUpto(key[i>>3:], qr.innerPrefix)
 			if r == 0 {
 				i = i&(^7) + qr.innerPrefixLen
 			} else if r < 0 {
